@@ -1799,4 +1799,122 @@ theorem writePrepare_errdoc_headers (cfg : Cfg) (st : St) (hh : st.handler = fal
   simp [noLen, hs.1, hs.2, ctHtml_noLen.1, ctHtml_noLen.2, hpos, ctHtml_setCl]
 
 
+/-! ## small facts about single functions (helpers, not property theorems) -/
+
+/-- a chunk-size line must start with a hex digit -/
+theorem dcParseLine_needs_hex (l : Bytes) (h : (l.head?.bind hexVal) = none) : dcParseLine l = none := by
+  unfold dcParseLine
+  cases l with
+  | nil => simp [ckHex]
+  | cons b rest =>
+    simp only [List.head?_cons, Option.bind_some] at h
+    simp [ckHex, h]
+
+/-- **Hop-by-hop fields of the backend connection are not relayed**: Upgrade (upgrade not
+    enabled) and HTTP2-Settings from any backend, Connection from a proxy backend or towards an
+    HTTP/2 client never reach the client-side field list; Transfer-Encoding is consumed (it turns
+    on the chunked decoder and removes a Content-Length received before it). -/
+theorem applyField_hop_by_hop (cfg : Cfg) (st : St) (k v : Bytes) :
+    (lower k = nUpgrade → applyField cfg st k v = st) ∧
+    (lower k = nHttp2Settings → applyField cfg st k v = st) ∧
+    (lower k = nConnection → (cfg.be = .proxy ∨ cfg.ver ≥ 2) → applyField cfg st k v = st) ∧
+    (lower k = nTransferEncoding → (applyField cfg st k v).decodeChunked = true ∧
+       (applyField cfg st k v).headers =
+         (if hasHdr st.headers nContentLength then hdrUnset st.headers nContentLength else st.headers) ∧
+       (applyField cfg st k v).scratch = (if hasHdr st.headers nContentLength then -1 else st.scratch)) := by
+  refine ⟨?_, ?_, ?_, ?_⟩
+  · intro h
+    have : ¬ (nUpgrade = nStatus) := by decide
+    simp [applyField, h, this]
+  · intro h
+    have h1 : ¬ (nHttp2Settings = nStatus) := by decide
+    have h2 : ¬ (nHttp2Settings = nUpgrade) := by decide
+    have h3 : ¬ (nHttp2Settings = nConnection) := by decide
+    have h4 : ¬ (nHttp2Settings = nContentType) := by decide
+    have h5 : ¬ (nHttp2Settings = nContentLength) := by decide
+    have h6 : ¬ (nHttp2Settings = nTransferEncoding) := by decide
+    simp [applyField, h, h1, h2, h3, h4, h5, h6]
+  · intro h hc
+    have h1 : ¬ (nConnection = nStatus) := by decide
+    have h2 : ¬ (nConnection = nUpgrade) := by decide
+    rcases hc with hc | hc
+    · simp [applyField, h, h1, h2, hc]
+    · by_cases hp : cfg.be = .proxy
+      · simp [applyField, h, h1, h2, hp]
+      · simp [applyField, h, h1, h2, hp, hc]
+  · intro h
+    have h1 : ¬ (nTransferEncoding = nStatus) := by decide
+    have h2 : ¬ (nTransferEncoding = nUpgrade) := by decide
+    have h3 : ¬ (nTransferEncoding = nConnection) := by decide
+    have h4 : ¬ (nTransferEncoding = nContentType) := by decide
+    have h5 : ¬ (nTransferEncoding = nContentLength) := by decide
+    unfold applyField
+    simp only [h, h1, h2, h3, h4, h5, if_false, if_true]
+    by_cases hcl : hasHdr st.headers nContentLength = true <;> simp [hcl]
+
+
+
+/-- the field lines of the client-side head are the stored fields verbatim (`CRLF name ": " value`),
+    plus a Date line when the backend sent none -/
+theorem h1FieldLines_verbatim (hs : List (Bytes × Bytes))
+    (h : ∀ kv ∈ hs, kv.1 ≠ [] ∧ kv.2 ≠ [] ∧ omitHeader kv.1 = false) :
+    h1FieldLines hs = (hs.flatMap fun kv => crlf ++ kv.1 ++ [colon, sp] ++ kv.2) ++
+      (if hasHdr hs nDate then [] else dateLine) := by
+  unfold h1FieldLines
+  congr 1
+  induction hs with
+  | nil => rfl
+  | cons kv rest ih =>
+    have hk := h kv (by simp)
+    have e1 : kv.1.isEmpty = false := by cases hkv : kv.1 <;> simp_all
+    have e2 : kv.2.isEmpty = false := by cases hkv : kv.2 <;> simp_all
+    simp only [List.flatMap_cons, e1, e2, hk.2.2, Bool.or_self, Bool.false_eq_true, if_false]
+    rw [ih (fun x hx => h x (by simp [hx]))]
+
+
+/-- the field lines of lighttpd's own error response: Content-Type, the Content-Length of the
+    error page, Connection as the keep-alive decision demands, Date -/
+def errFields (cfg : Cfg) (status : Nat) (ka : Bool) : Bytes :=
+  h1FieldLines (h1HeaderSet cfg
+    { status := status, keepAlive := ka,
+      headers := ctHtml ++ [(ofString "Content-Length", decBytes (errorPage status).length)] })
+
+theorem h1HeaderSet_congr (cfg : Cfg) (a b : St) (h1 : a.headers = b.headers) (h2 : a.keepAlive = b.keepAlive)
+    (h3 : a.status = b.status) : h1HeaderSet cfg a = h1HeaderSet cfg b := by
+  unfold h1HeaderSet; rw [h1, h2, h3]
+
+theorem conStep_errdoc_fields (cfg : Cfg) (st1 : St) (hv : cfg.ver ≤ 1) (hc : st1.cstate = .handle)
+    (ho : st1.open_ = false) (hh : st1.handler = false) (h4 : 400 ≤ st1.status) (h6 : st1.status < 600)
+    (h401 : st1.status ≠ 401) (hhead : cfg.head = false) :
+    (conStep cfg st1).evs = pushW st1.evs
+      (h1StatusLine cfg st1.status ++ errFields cfg st1.status st1.keepAlive ++ crlf ++ crlf ++ errorPage st1.status) := by
+  obtain ⟨w1, w2, w3, w4, w5, w6, w7⟩ := writePrepare_errdoc cfg st1 hh h4 h6
+  have hstart : conStep cfg st1 = startResponse cfg st1 := by
+    unfold conStep
+    simp [hc, handlerStarts, subrequestWaits, ho]
+  rw [hstart]
+  obtain ⟨r1, r2, r3, r4⟩ := startResponse_h1_finished cfg st1 hv (by omega) w7
+  rw [r4, w1, w3, w4]
+  have : h1HeaderSet cfg (writePrepare cfg st1) = h1HeaderSet cfg
+      { status := st1.status, keepAlive := st1.keepAlive,
+        headers := ctHtml ++ [(ofString "Content-Length", decBytes (errorPage st1.status).length)] } :=
+    h1HeaderSet_congr cfg _ _ (writePrepare_errdoc_headers cfg st1 hh h4 h6 h401 hhead) w2 w1
+  unfold errFields
+  rw [this]
+  simp [hhead]
+
+/-- hang-up on a started response of a backend without record layer is handled as end of file -/
+theorem gwRecvEnd_hup_started (cfg : Cfg) (st : St) (hs : st.started = true) :
+    gwRecvEnd cfg st .hup = gwRecvEnd cfg st .eof := by
+  simp [gwRecvEnd, hs]
+
+theorem gwRecvEnd_eofHup (cfg : Cfg) (st : St) (e : End) (hbe : cfg.be ≠ .fcgi) (hs : st.started = true)
+    (he : e = .eof ∨ e = .hup) : gwRecvEnd cfg st e = gwClose cfg st := by
+  rcases he with h | h <;> subst h <;> simp [gwRecvEnd, hbe, hs]
+
+theorem backendError_bodiless (cfg : Cfg) (st : St) (hs : st.started = true) (hb : bodiless cfg st = true) :
+    gwBackendError cfg st = gwClose cfg st := by
+  simp [gwBackendError, backendError, hs, hb]
+
+
 end LtVerif.BeResp
